@@ -288,6 +288,22 @@ func (f *fake) next(key string) (spec, int) {
 	if l := f.script[key]; len(l) >= n {
 		sp = l[n-1]
 	}
+	if w, ok := sp["wait"].(map[string]any); ok {
+		// hold this request until another request has been seen n times (e.g. the manifest GET of a second,
+		// concurrent pull) plus a grace period: deterministic overlap of concurrent pulls
+		wk, _ := w["key"].(string)
+		wn := hx.Int(w["n"])
+		extra := time.Duration(hx.Int(w["extra_ms"])) * time.Millisecond
+		deadline := time.Now().Add(20 * time.Second)
+		for f.count[wk] < wn && time.Now().Before(deadline) {
+			f.mu.Unlock()
+			time.Sleep(10 * time.Millisecond)
+			f.mu.Lock()
+		}
+		f.mu.Unlock()
+		time.Sleep(extra)
+		f.mu.Lock()
+	}
 	if f.cancel != nil && f.cancelK == key && f.cancelN == n {
 		f.cancel()
 		// give the cancellation time to reach the pull before this request is answered
@@ -863,17 +879,30 @@ func (f *fake) par(apiURL, models string, st map[string]any) map[string]any {
 		f.manifests[strings.Replace(name, ":", "/", 1)] = f.buildManifest(p["manifest"].(map[string]any))
 	}
 	f.mu.Unlock()
+	ctxs := make([]context.Context, len(names))
+	cancels := make([]context.CancelFunc, len(names))
+	for i := range names {
+		ctxs[i], cancels[i] = context.WithCancel(context.Background())
+		defer cancels[i]()
+	}
+	if cs, ok := st["cancel"].(map[string]any); ok {
+		// the client of one of the pulls goes away when the n-th request for a key arrives
+		f.mu.Lock()
+		f.cancel, f.cancelK, f.cancelN = cancels[hx.Int(cs["pull"])], cs["key"].(string), hx.Int(cs["n"])
+		f.mu.Unlock()
+	}
 	results := make([]pullResult, len(names))
 	var wg sync.WaitGroup
 	for i, name := range names {
 		wg.Add(1)
 		go func(i int, name string) {
 			defer wg.Done()
-			time.Sleep(time.Duration(i) * 120 * time.Millisecond)
-			results[i] = doPull(context.Background(), apiURL, f.regHost+"/"+name)
+			time.Sleep(time.Duration(i) * 150 * time.Millisecond)
+			results[i] = doPull(ctxs[i], apiURL, f.regHost+"/"+name)
 		}(i, name)
 	}
 	wg.Wait()
+	time.Sleep(100 * time.Millisecond)
 	res := map[string]any{"t": "par", "results": results, "idle": waitIdle()}
 	f.mu.Lock()
 	res["served"] = append([]served(nil), f.log...)
